@@ -318,6 +318,13 @@ func TestC12Inputs(t *testing.T) {
 				c.Close()
 			}
 		}()
+		if rapid.IntRange(0, 2).Draw(t, "restartFirst") == 0 {
+			// the inputs meet a server that has been through a restart: its state
+			// (the banned id included) was rebuilt from the files
+			s.restart(s.now)
+			e.hist = append(e.hist, "server restarted before the inputs")
+			ev.Label("c12:inputs-after-restart")
+		}
 		if rapid.Bool().Draw(t, "peersDown") {
 			for i := 0; i < rapid.IntRange(1, 2).Draw(t, "nPeers"); i++ {
 				as := ref.AuthServer{PublicKey: keyFor(fmt.Sprintf("c12-down-%d", i)).Pub, Location: "127.0.0.1", HttpPort: world.DeadPort(), TcpPort: 1, UdpPort: 1}
